@@ -1,11 +1,138 @@
 /-
-  C01 — every packet value survives serialise -> deserialise unchanged.
-  (theorems are being added; see DESIGN.md §7 C01)
+  C01 — every packet value survives serialise → deserialise unchanged.
+
+  Structure of the proof (all for ARBITRARY struct definitions, any number of fields, any nesting depth):
+    * length prefixes           `len_roundtrip`            (Proofs/RoundTrip.lean, from C16)
+    * <TAG><LENGTH><DATA>       `deserTagged_serTagged`, `deserTagged_serTagged_empty`
+    * value encodings           `leaf_seen_roundtrip`      (LE/BE, BCD incl. zero padding, receipt number, CP437, hex, raw)
+    * fields                    `leaf_field_roundtrip`, `bytes_field_roundtrip`, `int_field_roundtrip_empty`, `opt_*`
+    * structs (compositional)   `struct_payload_roundtrip`, `struct_positional_suffix`, `struct_field_roundtrip`
+    * commands                  `command_roundtrip`
+  PARTIAL: two leaf encodings are not covered by `LeafCanon` yet (UTF-8 text, date-time), and tagged `Vec`
+  fields are not yet admitted as groups (their group consumes all adjacent elements, which needs a side
+  condition on what follows). Both are covered by the correspondence check on every run.
 -/
-import ZvtVerif.Derive
-import ZvtVerif.Proofs.EncodingLemmas
-import ZvtVerif.Proofs.LengthLemmas
+import ZvtVerif.Proofs.StructRT
+import ZvtVerif.Generated
 namespace Zvt.C01
 open Zvt
+
+/-- **Struct level.** See `Zvt.struct_payload_roundtrip`. -/
+theorem struct_roundtrip (ps : List PF) (qs : List TF) (hps : ∀ p ∈ ps, p.OK) (hqs : ∀ q ∈ qs, q.OK)
+    (hnd : (qs.map (·.t)).Nodup) :
+    encFields (ps.map (·.f) ++ qs.map (·.f)) (ps.map (·.v) ++ qs.map (·.v)) =
+        .ok (ps.flatMap (·.bytes) ++ qs.flatMap (·.bytes)) ∧
+    decStruct (ps.map (·.f) ++ qs.map (·.f)) (ps.flatMap (·.bytes) ++ qs.flatMap (·.bytes)) =
+        .ok (.struct (ps.map (·.v) ++ qs.map (·.v)), []) :=
+  struct_payload_roundtrip ps qs hps hqs hnd
+
+/-- **Command level**: `zvt_deserialize (zvt_serialize v ++ x) = (v, x)` for every command type whose
+fields round-trip. -/
+theorem cmd_roundtrip (s : StructDef) (c0 c1 : Nat) (hc : s.ctrl = some (c0, c1)) (h0 : c0 < 256) (h1 : c1 < 256)
+    (ps : List PF) (qs : List TF) (hfs : s.fields = ps.map (·.f) ++ qs.map (·.f))
+    (hps : ∀ p ∈ ps, p.OK) (hqs : ∀ q ∈ qs, q.OK) (hnd : (qs.map (·.t)).Nodup)
+    (hfit : (ps.flatMap (·.bytes) ++ qs.flatMap (·.bytes)).length ≤ 65535) (x : Bytes) :
+    ∃ bytes, encodeCmd s (.struct (ps.map (·.v) ++ qs.map (·.v))) = .ok bytes ∧
+      decodeCmd s (bytes ++ x) = .ok (.struct (ps.map (·.v) ++ qs.map (·.v)), x) :=
+  command_roundtrip s c0 c1 hc h0 h1 ps qs hfs hps hqs hnd hfit x
+
+/-! ### instance: a shipped packet, for ALL its values (the hypotheses of the generic theorems are satisfiable) -/
+
+def optNumVal (o : Option Nat) : Val :=
+  match o with
+  | none => .none
+  | some n => .some (.num n)
+
+theorem tagEnc_ne_nil (t : Nat) : tagEncDefault t ≠ [] := by
+  by_cases h : t / 256 = 31 ∨ t / 256 = 255 <;> simp [tagEncDefault, h, beBytes, leBytes]
+
+/-- an optional tagged fixed-width integer without length prefix (e.g. BMP 27 result code, BMP 19). -/
+theorem tf_opt_int (name : String) (tg w : Nat) (hrep : tagRepresentable tg) (o : Option Nat) (ho : ∀ n, o = some n → n < 256 ^ w) :
+    ∃ q : TF, q.OK ∧ q.f = .mk name (some tg) .empty .dflt (.opt (.int w)) ∧ q.t = tg ∧
+      q.v = optNumVal o ∧ q.bytes.length ≤ 2 + w := by
+  cases o with
+  | none =>
+    refine ⟨⟨.mk name (some tg) .empty .dflt (.opt (.int w)), tg, .none, [], false⟩, ⟨rfl, by simp [Field.ty, Ty.ser], ?_⟩, rfl, rfl, rfl, by simp⟩
+    simp [Field.ty, Ty.isOptional, Ty.dflt]
+  | some n =>
+    have hn := ho n rfl
+    have key : ∀ x, Ty.ser (.int w) .empty .dflt (some tg) (.num n) = .ok (tagEncDefault tg ++ leBytes w n) ∧
+        Ty.de (.int w) .empty .dflt (some tg) ((tagEncDefault tg ++ leBytes w n) ++ x) = .ok (.num n, x) := by
+      intro x
+      obtain ⟨bytes, hs, hd, hb⟩ := int_field_roundtrip_empty w n false hn (some tg) (fun t ht => by cases ht; exact hrep) x
+      simp only [Bool.false_eq_true, if_false, tagPrefix, intEncode] at hs hd hb
+      subst hb
+      exact ⟨hs, hd⟩
+    refine ⟨⟨.mk name (some tg) .empty .dflt (.opt (.int w)), tg, .some (.num n), tagEncDefault tg ++ leBytes w n, true⟩, ⟨rfl, ?_, ?_⟩, rfl, rfl, rfl, ?_⟩
+    · simp only [Field.ty, Field.len, Field.enc, Ty.ser]; exact (key []).1
+    · simp only [if_true, Field.ty, Field.len, Field.enc]
+      refine ⟨by simp [tagEnc_ne_nil], fun x => ⟨⟨leBytes w n ++ x, by rw [List.append_assoc]; exact tagDec_tagEnc tg hrep _⟩, ?_⟩⟩
+      have hk := (key x).2
+      simp only [Ty.de] at hk ⊢
+      rw [hk]
+    · have := tagEnc_shape tg
+      simp only [List.length_append, leBytes_length]
+      split at this <;> omega
+
+/-- an optional tagged BCD number in a fixed-width field (e.g. BMP 29 terminal id, BMP 49 currency). -/
+theorem tf_opt_bcd_fixed (name : String) (tg N w : Nat) (hrep : tagRepresentable tg) (o : Option Nat)
+    (ho : ∀ n, o = some n → n < 256 ^ w ∧ n < 100 ^ N) :
+    ∃ q : TF, q.OK ∧ q.f = .mk name (some tg) (.fixed N) .bcd (.opt (.int w)) ∧ q.t = tg ∧
+      q.v = optNumVal o ∧ q.bytes.length ≤ 2 + N := by
+  cases o with
+  | none =>
+    refine ⟨⟨.mk name (some tg) (.fixed N) .bcd (.opt (.int w)), tg, .none, [], false⟩, ⟨rfl, by simp [Field.ty, Ty.ser], ?_⟩, rfl, rfl, rfl, by simp⟩
+    simp [Field.ty, Ty.isOptional, Ty.dflt]
+  | some n =>
+    obtain ⟨hn, hN⟩ := ho n rfl
+    have hlen : (bcdEncK n).length ≤ N := by rw [bcdEncK_eq]; exact bcdEnc_length_le N n hN
+    have hcan : LeafCanon (.fixed N) .bcd (.int w) (.num n) (bcdEncK n) := ⟨rfl, hn⟩
+    have key : ∀ x, Ty.ser (.int w) (.fixed N) .bcd (some tg) (.num n) =
+          .ok (tagEncDefault tg ++ (List.replicate (N - (bcdEncK n).length) 0 ++ bcdEncK n)) ∧
+        Ty.de (.int w) (.fixed N) .bcd (some tg) ((tagEncDefault tg ++ (List.replicate (N - (bcdEncK n).length) 0 ++ bcdEncK n)) ++ x) = .ok (.num n, x) := by
+      intro x
+      obtain ⟨bytes, hs, hd, pre, hpre, hb⟩ := leaf_field_roundtrip (.int w) trivial (.fixed N) .bcd (some tg)
+        (fun t ht => by cases ht; exact hrep) (.num n) (bcdEncK n) hcan hlen x
+      rw [C16.fixed_pad N _ hlen] at hpre
+      cases hpre
+      simp only [tagPrefix] at hb
+      subst hb
+      exact ⟨hs, hd⟩
+    refine ⟨⟨.mk name (some tg) (.fixed N) .bcd (.opt (.int w)), tg, .some (.num n),
+      tagEncDefault tg ++ (List.replicate (N - (bcdEncK n).length) 0 ++ bcdEncK n), true⟩, ⟨rfl, ?_, ?_⟩, rfl, rfl, rfl, ?_⟩
+    · simp only [Field.ty, Field.len, Field.enc, Ty.ser]; exact (key []).1
+    · simp only [if_true, Field.ty, Field.len, Field.enc]
+      refine ⟨by simp [tagEnc_ne_nil], fun x => ⟨⟨_, by rw [List.append_assoc]; exact tagDec_tagEnc tg hrep _⟩, ?_⟩⟩
+      have hk := (key x).2
+      simp only [Ty.de] at hk ⊢
+      rw [hk]
+    · have := tagEnc_shape tg
+      simp only [List.length_append, List.length_replicate]
+      split at this <;> omega
+
+/-- **`CompletionData` (06 0F), for every value**: result code and status byte 0..255, terminal id up to 8
+digits, currency up to 4 digits, each present or absent — `zvt_deserialize (zvt_serialize v ++ x) = (v, x)`
+for arbitrary trailing bytes `x`. Obtained from the generic theorems alone. -/
+theorem completionData_roundtrip (rc sb tid cur : Option Nat)
+    (h1 : ∀ n, rc = some n → n < 256) (h2 : ∀ n, sb = some n → n < 256)
+    (h3 : ∀ n, tid = some n → n < 10 ^ 8) (h4 : ∀ n, cur = some n → n < 10 ^ 4) (x : Bytes) :
+    ∃ bytes, encodeCmd Generated.packets_CompletionData (.struct [optNumVal rc, optNumVal sb, optNumVal tid, optNumVal cur]) = .ok bytes ∧
+      decodeCmd Generated.packets_CompletionData (bytes ++ x) = .ok (.struct [optNumVal rc, optNumVal sb, optNumVal tid, optNumVal cur], x) := by
+  obtain ⟨q0, ok0, f0, t0, v0, l0⟩ := tf_opt_int "result_code" 0x27 1 (by decide) rc (fun n h => by have := h1 n h; omega)
+  obtain ⟨q1, ok1, f1, t1, v1, l1⟩ := tf_opt_int "status_byte" 0x19 1 (by decide) sb (fun n h => by have := h2 n h; omega)
+  obtain ⟨q2, ok2, f2, t2, v2, l2⟩ := tf_opt_bcd_fixed "terminal_id" 0x29 4 8 (by decide) tid
+    (fun n h => by have := h3 n h; constructor <;> omega)
+  obtain ⟨q3, ok3, f3, t3, v3, l3⟩ := tf_opt_bcd_fixed "currency" 0x49 2 8 (by decide) cur
+    (fun n h => by have := h4 n h; constructor <;> omega)
+  have := command_roundtrip Generated.packets_CompletionData 6 15 rfl (by decide) (by decide) [] [q0, q1, q2, q3]
+    (by simp [Generated.packets_CompletionData, f0, f1, f2, f3])
+    (by simp) (by intro q hq; simp at hq; rcases hq with rfl | rfl | rfl | rfl <;> assumption)
+    (by simp [t0, t1, t2, t3])
+    (by simp; omega) x
+  simpa [v0, v1, v2, v3] using this
+
+/-- a concrete instance evaluated by the kernel (the completion the terminal sends after registration). -/
+example : (decodeCmd Generated.packets_CompletionData [0x06, 0x0f, 0x0c, 0x27, 0x00, 0x29, 0x52, 0x52, 0x35, 0x35, 0x49, 0x09, 0x78, 0x19, 0x00, 0xaa]).isOkVal
+    (.struct [.some (.num 0), .some (.num 0), .some (.num 52523535), .some (.num 978)]) [0xaa] = true := by decide +kernel
 
 end Zvt.C01
